@@ -354,7 +354,7 @@ def m_box_into_vec(I, st, c, args, cont, depth, site):
     raise Inconclusive('assume_init of %r' % (v,))
 
 
-@model(r'^(std::slice::|alloc::slice::)?<impl \[.*\]>::into_vec::<|^(std::vec::)?Vec::<.*>::into_boxed_slice$|^<Box<\[.*\]> as From<Vec<.*>>>::from$|^<Vec<.*> as Into<Box<\[.*\]>>>::into$|^<Vec<.*> as From<Box<\[.*\]>>>::from$|^<Vec<.*> as From<&\[.*\]>>::from$|^(core|std)::slice::<impl \[.*\]>::to_vec$|^<\[.*\] as ToOwned>::to_owned$|^<Vec<.*> as From<\[.*; \d+\]>>::from$|^(std::vec::)?Vec::<.*>::(as_slice|as_mut_slice)$|^<Box<\[.*\]> as From<\[.*\]>>::from$|^<Vec<.*> as From<&\[.*; \d+\]>>::from$', 'Vec<->Box<[T]>/slice conversions')
+@model(r'^(std::slice::|alloc::slice::)?<impl \[.*\]>::into_vec::<|^(std::vec::)?Vec::<.*>::into_boxed_slice$|^<Box<\[.*\]> as From<Vec<.*>>>::from$|^<Vec<.*> as Into<Box<\[.*\]>>>::into$|^<Vec<.*> as From<Box<\[.*\]>>>::from$|^<Vec<.*> as From<&\[.*\]>>::from$|^((core|std|alloc)::)?slice::<impl \[.*\]>::to_vec$|^<\[.*\] as ToOwned>::to_owned$|^<Vec<.*> as From<\[.*; \d+\]>>::from$|^(std::vec::)?Vec::<.*>::(as_slice|as_mut_slice)$|^<Box<\[.*\]> as From<\[.*\]>>::from$|^<Vec<.*> as From<&\[.*; \d+\]>>::from$|^<&\[.*\] as Into<Box<\[.*\]>>>::into$|^<Box<\[.*\]> as From<&\[.*\]>>::from$|^<&\[.*\] as Into<Vec<.*>>>::into$', 'Vec<->Box<[T]>/slice conversions')
 def m_vec_conv(I, st, c, args, cont, depth, site):
     """Vec<T> is an inline VecVal; Box<[T]> is a heap reference to a VecVal (its deref is inlined in MIR)"""
     a = args[0]
@@ -447,9 +447,9 @@ def m_deref(I, st, c, args, cont, depth, site):
     cont(st, a)
 
 
-@model(r'^(core|std)::slice::<impl \[.*\]>::(len|is_empty|last|last_mut|first|first_mut|get|get_mut|iter|iter_mut|contains|split_first|split_last)$', 'slice basic ops')
+@model(r'^(core|std)::slice::<impl \[.*\]>::(len|is_empty|last|last_mut|first|first_mut|get|get_mut|iter|iter_mut|contains|split_first|split_last)(::<.*>)?$', 'slice basic ops')
 def m_slice_ops(I, st, c, args, cont, depth, site):
-    op = c.rsplit('::', 1)[1]
+    op = re.search(r'\]>::(\w+)(::<.*>)?$', c).group(1)
     r, v = vec_at(I, st, args[0])
     n = len(v.items)
     if op == 'len':
@@ -703,10 +703,17 @@ def to_iter(I, st, a, callee=''):
         return a
     if isinstance(a, VecVal):
         return IterVal('owned', None, 0, items=a.items)
+    if isinstance(a, MapVal):
+        is_set = bool(re.search(r'Set<', callee))
+        return IterVal('owned', None, 0, items=tuple(k if is_set else tup(k, v) for k, v in a.items))
     if isinstance(a, Ref):
         v = I.read_ref(st, a)
         if isinstance(v, IterVal):
             return IterVal('byref', a)
+        if isinstance(v, MapVal) or (isinstance(v, Ref) and isinstance(I.deref(st, v), MapVal)):
+            r, m = map_at(I, st, a)
+            is_set = bool(re.search(r'Set<', callee))
+            return IterVal('mapiter', src=r, pos=0, end=len(m.items), mode='set' if is_set else 'iter')
         r, vec = vec_at(I, st, a)
         if re.match(r'^<(Box<\[|Vec<)', callee) and not callee.startswith('<&'):
             return IterVal('owned', None, 0, items=vec.items)
@@ -743,9 +750,9 @@ def m_next(I, st, c, args, cont, depth, site):
     iter_next(I, st, it, depth, k)
 
 
-@model(r' as (std::iter::)?Iterator>::(enumerate|rev|copied|cloned|peekable|by_ref|fuse)$|^<.* as DoubleEndedIterator>::rev$', 'Iterator adaptors (enumerate/rev/copied/cloned)')
+@model(r' as (std::iter::)?Iterator>::(enumerate|rev|copied|cloned|peekable|by_ref|fuse)(::<.*>)?$|^<.* as DoubleEndedIterator>::rev$', 'Iterator adaptors (enumerate/rev/copied/cloned)')
 def m_adapt0(I, st, c, args, cont, depth, site):
-    op = c.rsplit('::', 1)[1]
+    op = re.search(r'>::(\w+)(::<.*>)?$', c).group(1)
     a = args[0]
     if op == 'by_ref':
         return cont(st, a)
@@ -803,9 +810,15 @@ def m_collect(I, st, c, args, cont, depth, site):
     def done(st2, p):
         if p is PANIC:
             return cont(st2, PANIC)
-        if re.search(r'Hash(Map|Set)|BTree(Map|Set)|IdHash', target):
-            kind = 'btree' if 'BTree' in target else 'map'
-            if re.search(r'(Set)<', target) or 'IdHashSet' in target:
+        outer = target
+        if as_result:
+            from .defs import generic_args
+            ga = generic_args(target)
+            outer = ga[0] if ga else target
+        outer_name = re.match(r'[\w:]+', outer.strip()).group(0).split('::')[-1] if re.match(r'[\w:]+', outer.strip()) else ''
+        if outer_name in ('HashMap', 'HashSet', 'BTreeMap', 'BTreeSet', 'IdHashMap', 'IdHashSet'):
+            kind = 'btree' if 'BTree' in outer_name else 'map'
+            if outer_name.endswith('Set'):
                 res = MapVal(tuple((x, unit()) for x in out), kind)
             else:
                 res = MapVal(tuple((x.f[0], x.f[1]) for x in out), kind)
@@ -1261,10 +1274,8 @@ def m_map_ops(I, st, c, args, cont, depth, site):
             cont(s, z3.BoolVal(False) if is_set else some(old))
 
         def miss(s):
-            r2, m2 = map_at(I, s, args[0])
-            I.write_ref(s, r2, MapVal(m2.items + ((keyv, val),), m2.kind))
-            cont(s, z3.BoolVal(True) if is_set else none())
-        return map_lookup(I, st, m, keyv, hit, miss)
+            map_insert(I, s, args[0], keyv, val, depth, lambda s2, i: cont(s2, z3.BoolVal(True) if is_set else none()))
+        return map_lookup(I, st, m, keyv, hit, miss, depth)
     if op == 'remove':
         def hit(s, i):
             r2, m2 = map_at(I, s, args[0])
@@ -1487,3 +1498,72 @@ def m_ordering(I, st, c, args, cont, depth, site):
     if op == 'reverse':
         return cont(st, ordering({'Less': 'Greater', 'Greater': 'Less', 'Equal': 'Equal'}[v]))
     cont(st, z3.BoolVal({'is_eq': v == 'Equal', 'is_ne': v != 'Equal', 'is_lt': v == 'Less', 'is_gt': v == 'Greater', 'is_le': v != 'Greater', 'is_ge': v != 'Less'}[op]))
+
+
+def map_insert(I, st, mref, key, val, depth, k):
+    """append (hash maps: insertion order = one admissible iteration order) or insert at the sorted position (btree); k(st, index)"""
+    r, m = map_at(I, st, mref)
+    if m.kind != 'btree' or not m.items:
+        I.write_ref(st, r, MapVal(m.items + ((key, val),), m.kind))
+        return k(st, len(m.items))
+
+    def go(pos, st):
+        if pos >= len(m.items):
+            I.write_ref(st, r, MapVal(m.items + ((key, val),), m.kind))
+            return k(st, len(m.items))
+
+        def decided(st2, res):
+            if res == 'Less':
+                items = m.items[:pos] + ((key, val),) + m.items[pos:]
+                I.write_ref(st2, r, MapVal(items, m.kind))
+                return k(st2, pos)
+            go(pos + 1, st2)
+        cmp_values(I, st, key, m.items[pos][0], depth, decided)
+    go(0, st)
+
+
+@model(r'^' + MAPTY + r'::<.*>::entry$', 'map entry()')
+def m_map_entry(I, st, c, args, cont, depth, site):
+    cont(st, Struct('MapEntry', (args[0], args[1])))
+
+
+@model(r'^(std::collections::)?(hash_map|btree_map)::Entry::<.*>::(or_default|or_insert_with|or_insert)(::<.*>)?$', 'map Entry::or_default|or_insert_with|or_insert')
+def m_entry_or(I, st, c, args, cont, depth, site):
+    op = re.search(r'Entry::<.*>::(\w+)', c).group(1)
+    ent = args[0]
+    mref, key = ent.f
+    r, m = map_at(I, st, mref)
+
+    def hit(s, i):
+        cont(s, Ref(r.key, r.path + (('mapval', i),)))
+
+    def miss(s):
+        def with_val(s2, v):
+            if v is PANIC:
+                return cont(s2, PANIC)
+            map_insert(I, s2, mref, key, v, depth, lambda s3, i: cont(s3, Ref(r.key, r.path + (('mapval', i),))))
+        if op == 'or_insert':
+            return with_val(s, args[1])
+        if op == 'or_insert_with':
+            return I.call_closure(s, args[1], [], with_val, depth)
+        vt = generic_tail(c)
+        if vt.startswith('Vec<') or vt.startswith('std::vec::Vec<'):
+            return with_val(s, VecVal())
+        if re.match(r'(u8|u16|u32|u64|usize)$', vt):
+            return with_val(s, bv(0, vt))
+        raise Inconclusive('or_default for value type ' + vt)
+    map_lookup(I, st, m, key, hit, miss, depth)
+
+
+def generic_tail(c):
+    """last generic argument of Entry::<'_, K, V>"""
+    m = re.search(r'Entry::<(.*)>::\w+', c)
+    from .mir import split_top
+    parts = split_top(m.group(1)) if m else []
+    return parts[-1].strip() if parts else ''
+
+
+@model(r'^(std|core)::mem::size_of::<(u8|u16|u32|u64|usize|i32|i64|u128)>$', 'mem::size_of::<int>')
+def m_size_of(I, st, c, args, cont, depth, site):
+    t = re.search(r'size_of::<(\w+)>', c).group(1)
+    cont(st, usize(INT_W[t] // 8))
